@@ -160,10 +160,28 @@ class _Stub:
         self.misrange = 0    # draws from another range than range(n-1)
         self.blocks = 0      # draws of whole blocks (size=...)
         self.terminated = False
+        self.shuffles = 0
 
     # random source
     def shuffle(self, x):
-        x[:] = self.start
+        """First call: the start tour; later calls: the next permutation."""
+        self.shuffles += 1
+        if self.shuffles == 1:
+            x[:] = self.start
+            return
+        v = x.tolist()
+        k = len(v) - 2
+        while k >= 0 and v[k] >= v[k + 1]:
+            k -= 1
+        if k < 0:
+            v.reverse()
+        else:
+            j = len(v) - 1
+            while v[j] <= v[k]:
+                j -= 1
+            v[k], v[j] = v[j], v[k]
+            v[k + 1:] = reversed(v[k + 1:])
+        x[:] = v
 
     def _next(self, high):
         if self.pos >= self.len:
